@@ -9,10 +9,15 @@ import (
 
 // c03Base builds a correctly signed two-argument request and its symbolic signatures.
 func (aw *authWorld) c03Base(chName string, route int, acc *Account, a, b string) (*authCase, string) {
+	return aw.c03BaseFor(chName, chName, chName, route, acc, a, b)
+}
+
+// c03BaseFor signs a request whose chaincode / channel fields name ccField / chField and which is sent to chName.
+func (aw *authWorld) c03BaseFor(chName, ccField, chField string, route int, acc *Account, a, b string) (*authCase, string) {
 	aw.nonce++
 	fn := map[int]string{0: "echo2", 1: "echo2", 2: "nbEcho2", 3: "qEcho2"}[route]
 	kt := acc.Members[0].KeyType
-	args := BuildRequest(fn, "", chName, chName, []string{a, b}, strconv.FormatUint(aw.nonce, 10), acc.Members, nil, nil)
+	args := BuildRequest(fn, "", ccField, chField, []string{a, b}, strconv.FormatUint(aw.nonce, 10), acc.Members, nil, nil)
 	msg := fn + strings.Join(args[:len(args)-len(acc.Members)], "")
 	ac := &authCase{Route: route, Fn: fn, Args: args, KeyType: kt.String(), PolicyN: int(acc.ReqN), signers: acc.Members, account: acc, cc: chName, ch: chName}
 	for _, m := range acc.Members {
@@ -22,6 +27,15 @@ func (aw *authWorld) c03Base(chName string, route int, acc *Account, a, b string
 	ac.valid = len(acc.Members)
 	ac.required = int(acc.ReqN)
 	return ac, msg
+}
+
+// a byte moved across a boundary next to the chaincode or channel field changes that field and is
+// rejected by the name check; only the other boundaries are the known finding F2
+func shiftClass(f int) string {
+	if f <= 2 {
+		return "boundary_shift_routing"
+	}
+	return "boundary_shift"
 }
 
 func cloneCase(ac *authCase) *authCase {
@@ -115,13 +129,13 @@ func genC03(c *Ctx) error {
 							if len(ac.Args[f]) >= k {
 								l := ac.Args[f]
 								ac.Args[f], ac.Args[f+1] = l[:len(l)-k], l[len(l)-k:]+ac.Args[f+1]
-								emit(ac, "shift_right", "boundary_shift")
+								emit(ac, "shift_right", shiftClass(f))
 							}
 							ac = mk()
 							if len(ac.Args[f+1]) >= k {
 								r := ac.Args[f+1]
 								ac.Args[f], ac.Args[f+1] = ac.Args[f]+r[:k], r[k:]
-								emit(ac, "shift_left", "boundary_shift")
+								emit(ac, "shift_left", shiftClass(f))
 							}
 						}
 					}
@@ -151,6 +165,14 @@ func genC03(c *Ctx) error {
 				ac = mk()
 				ac.Args[2] = "uu"
 				emit(ac, "rename_ch")
+				// correctly signed, but for another channel / another chaincode (nothing tampered with afterwards)
+				aw.tag++
+				ac, _ = aw.c03BaseFor("tt", "tt", "staging", route, acc, "a"+strconv.Itoa(aw.tag), "bb7")
+				ac.tampered = true
+				emit(ac, "signed_for_other_channel")
+				aw.tag++
+				ac, _ = aw.c03BaseFor("tt", "fiat", "tt", route, acc, "a"+strconv.Itoa(aw.tag), "bb7")
+				emit(ac, "signed_for_other_chaincode")
 				// signer keys
 				ac = mk()
 				ac.Args[6] = other.Members[0].Pub
